@@ -4,7 +4,11 @@ import json, subprocess, sys, tempfile, os, xml.etree.ElementTree as ET
 base = json.load(open("/root/.vp/BASELINE.json"))
 fd, path = tempfile.mkstemp(suffix=".xml"); os.close(fd)
 cmd = ["/venv/bin/python", "-m", "pytest", "-q", "-p", "no:cacheprovider", "--timeout=900", "--continue-on-collection-errors", f"--junitxml={path}"]
-r = subprocess.run(cmd, cwd="/repo", capture_output=True, text=True)
+d = os.environ.get("SUITE_DIR", "/repo")
+env = dict(os.environ)
+if d != "/repo":
+    env["PYTHONPATH"] = d + "/src"
+r = subprocess.run(cmd, cwd=d, capture_output=True, text=True, env=env)
 passed = set(); failed = set()
 for tc in ET.parse(path).getroot().iter("testcase"):
     name = tc.get("classname") + "::" + tc.get("name")
